@@ -15,7 +15,11 @@
 
 /* fake objects: the distances code only reads type, gp_index, os_index, subtype, depth */
 static struct hwloc_obj FO[NB];
+#ifdef POOL_OS      /* the types that are identified by os_index (add harness only: refresh of such matrices needs the level tables) */
+static const hwloc_obj_type_t tpool[3] = { HWLOC_OBJ_PU, HWLOC_OBJ_NUMANODE, HWLOC_OBJ_CORE };
+#else
 static const hwloc_obj_type_t tpool[3] = { HWLOC_OBJ_CORE, HWLOC_OBJ_PACKAGE, HWLOC_OBJ_OS_DEVICE };
+#endif
 static char nvswitch[] = "NVSwitch", other[] = "GPU";
 static void mk_objs(int symbolic_types)
 {
@@ -29,8 +33,8 @@ static void mk_objs(int symbolic_types)
 }
 static int is_sw(unsigned i) { return FO[i].subtype == nvswitch; }
 
+static int vp_reconnects;      /* natively the real hwloc__reconnect is linked (never reached: grouping is off) */
 #ifdef VP_CBMC
-static int vp_reconnects;
 int hwloc__reconnect(struct hwloc_topology *t, unsigned long f) { (void) t; (void) f; vp_reconnects++; return 0; }
 int hwloc_hide_errors(void) { return 2; }
 #endif
@@ -236,6 +240,11 @@ VP_HARNESS(h_add)
         int hetero = 0; for (unsigned i = 1; i < NADD; i++) if (FO[i].type != FO[0].type) hetero = 1;
         VP_CHECK(d->kind == (kind | (hetero ? HWLOC_DISTANCES_KIND_HETEROGENEOUS_TYPES : 0)), "committed structure: kind plus HETEROGENEOUS_TYPES iff object types differ");
         for (unsigned i = 0; i < NADD; i++) VP_CHECK(d->objs[i] == &FO[i], "committed structure: same objects");
+        /* the persistent identity that later refreshes resolve: os_index for matrices made only of PUs or only of NUMA nodes, gp_index
+         * (with the per-object type) otherwise (private.h) */
+        int by_os = !hetero && (FO[0].type == HWLOC_OBJ_PU || FO[0].type == HWLOC_OBJ_NUMANODE);
+        VP_CHECK(d->unique_type == (hetero ? HWLOC_OBJ_TYPE_NONE : FO[0].type) && !d->different_types == !hetero, "committed structure: unique type, or per-object types when they differ");
+        for (unsigned i = 0; i < NADD; i++) { VP_CHECK(d->indexes[i] == (by_os ? FO[i].os_index : FO[i].gp_index), "committed structure: objects are recorded by os_index (PU-only / NUMA-only matrices) or by gp_index (anything else)"); if (hetero) VP_CHECK(d->different_types[i] == FO[i].type, "committed structure: per-object types"); }
         for (unsigned i = 0; i < NADD * NADD; i++) VP_CHECK(d->values[i] == vals[i], "committed structure: same values");
         VP_CHECK(!(d->iflags & HWLOC_INTERNAL_DIST_FLAG_NOT_COMMITTED), "committed");
       }
